@@ -8,6 +8,9 @@ Case kinds (first token `<mode>.<fault>`):
             only); half of the cases with chunk sizes 3..16 so that every file is spread over several chunks
   e2e.*     real SyncStreamingParts <-> real SyncPart over an in-process gRPC pipe with one in-flight fault
   rde.*     a file reader of the sender fails mid-part (known finding F17B)
+  lwr.*     real liaison Write handlers (traceService / streamService / measureService .Write) with an in-memory
+            stream, a capturing publisher and a modular node registry; requests switch resource mid-stream with
+            metadata present / absent / repeated (oracle only)
   snd.*     real liaison write-queue shard (measure tsTable: flusher -> syncSnapshot -> executeSyncWithRetry ->
             FailedPartsHandler -> introduceSync) syncing to N real data nodes with scripted node availability;
             compared with the Lean queue model
@@ -252,6 +255,20 @@ def snd_cases(rng, n):
     return out
 
 
+def lwr_case(rng, engine=None):
+    """one liaison Write stream that switches between resources, with and without metadata on the requests"""
+    engine = engine or rng.choice(["trc", "trc", "str", "msr"])
+    nodes, shards = rng.choice([1, 2, 2, 3]), rng.choice([1, 2, 3, 4])
+    n = rng.randrange(2, 13)
+    toks, cur = [], None
+    for _ in range(n):
+        r = rng.randrange(0, 3) if cur is None or rng.random() < 0.4 else cur
+        meta = r != cur or rng.random() < 0.2     # a switch needs metadata; repeating it is allowed
+        cur = r
+        toks.append("%d%s%d" % (r, "M" if meta else "-", rng.randrange(1, 6)))
+    return "lwr.%s %d %d %s" % (engine, nodes, shards, ",".join(toks))
+
+
 TOLERATED = {"none", "flipdr", "flipcr", "dup", "swapin"}
 
 
@@ -312,6 +329,10 @@ class C17(vlib.Spec):
         for _ in range(n // 40):
             out.append(rde_case(rng))
         out.extend(snd_cases(rng, n))
+        for eng in ("trc", "str", "msr"):
+            out.append("lwr.%s 2 3 0M1,0-2,1M1,1-3,0M2,0-4" % eng)
+        for _ in range(n // 15):
+            out.append(lwr_case(rng))
         while len(out) < n:
             out.append(rec_case(rng, thorough))
         return out
@@ -341,6 +362,42 @@ class C17(vlib.Spec):
             return self.oracle_rde(f, kind, g)
         if mode == "snd":
             return self.oracle_snd(f, kind, g)
+        if mode == "lwr":
+            return self.oracle_lwr(f, kind, g)
+        return None
+
+    def oracle_lwr(self, f, kind, g):
+        kv = dict(t.split("=", 1) for t in g.split() if "=" in t)
+        if "sent" not in kv:
+            return ("violation", "unexpected driver output: " + g[:200])
+        reqs = [(int(t[0]), t[1] == "M") for t in f[3].split(",")]
+        addressed = {i + 1: "res%d" % r for i, (r, _) in enumerate(reqs)}
+        if kv["ret"] != "ok":
+            return ("violation", "[lwr.%s] Write returned an error for a well-formed stream" % kind)
+        sent = [] if kv["sent"] == "-" else [e.split(":") for e in kv["sent"].split(",")]
+        seen = {}
+        current = {}    # per node: the resource the data node's write callback attributes metadata-less requests to
+        for ent in sent:
+            rid, node, shard, exp_node, exp_shard, name = int(ent[0]), ent[1], ent[2], ent[3], ent[4], ent[5]
+            if rid in seen:
+                return ("violation", "[lwr.%s] request %d published twice" % (kind, rid))
+            seen[rid] = node
+            if shard != exp_shard or node != exp_node:
+                return ("violation", "[lwr.%s] request %d published to node %s shard %s, the partition function and the registry give node %s shard %s"
+                                     % (kind, rid, node, shard, exp_node, exp_shard))
+            if name != "-":
+                current[node] = name
+            if node not in current:
+                return ("violation", "[lwr.%s] request %d reaches node %s without metadata although that node was never told a resource" % (kind, rid, node))
+            if current[node] != addressed.get(rid):
+                return ("violation", "[lwr.%s] request %d was addressed to %s but node %s attributes it to %s (forwarded metadata: %s)"
+                                     % (kind, rid, addressed.get(rid), node, current[node], name))
+        if sorted(seen) != sorted(addressed):
+            return ("violation", "[lwr.%s] requests %s were not published" % (kind, sorted(set(addressed) - set(seen))))
+        replies = {} if kv["replies"] == "-" else {int(e.split(":")[0]): e.split(":")[1:] for e in kv["replies"].split(",")}
+        for rid, want in addressed.items():
+            if replies.get(rid) != [want, "SUCCEED"]:
+                return ("violation", "[lwr.%s] request %d (addressed to %s) answered %s" % (kind, rid, want, replies.get(rid)))
         return None
 
     def oracle_snd(self, f, kind, g):
